@@ -486,9 +486,23 @@ class SSETransport(Transport):
 
                     logger.debug(f"HTTP response status: {response.status_code}")
 
+                    immediate = None
                     if response.status_code == 200:
-                        # Immediate HTTP response
+                        # Immediate HTTP response - if the body answers this request.
+                        # A 200 whose body is something else (an acknowledgement
+                        # document, a response to another request) only acknowledges
+                        # the request, like a 202: the answer travels on the stream.
                         response_data = response.json()
+                        if (
+                            isinstance(response_data, dict)
+                            and response_data.get("id") is not None
+                            and str(response_data.get("id")) == message_id
+                            and ("result" in response_data or "error" in response_data)
+                        ):
+                            immediate = response_data
+
+                    if immediate is not None:
+                        response_data = immediate
                         logger.debug(f"Got immediate HTTP response for {message_id}")
 
                         # Cancel and remove the future
@@ -501,7 +515,7 @@ class SSETransport(Transport):
                         # Route response to incoming stream
                         await self._route_incoming_message(response_data)
 
-                    elif response.status_code == 202:
+                    elif response.status_code in (200, 202):
                         # Async SSE response expected
                         logger.debug(
                             f"Message {message_id} accepted, waiting for SSE response"
